@@ -193,4 +193,6 @@ def run(tier):
     for i in bad[:300]:
         ck.violation("IntervalOK: rows with their own log-probabilities, all from the requested top fraction, 2-D, at most the requested count",
                      ev_ident[i], site=f"{ev_ident[i]['class']}.get_interval")
+    from harness import repotests
+    repotests.run_part(ck, "C14")          # traces of the repository's own MCMC tests, judged by TestRunTrace.tla
     return ck.finish()
